@@ -376,9 +376,21 @@ macro_rules! system {
             use $crate::typenum::Integer;
             use $crate::{Conversion, ConversionFactor};
 
-            (v.conversion() $(* Ur::$name::coefficient().powi(D::$symbol::to_i32())
-                    / Ul::$name::coefficient().powi(D::$symbol::to_i32()))+)
-                .value()
+            let v = v.conversion();
+            $(let v = {
+                let r = Ur::$name::coefficient();
+                let l = Ul::$name::coefficient();
+
+                // Identical base units: the factor is exactly one.
+                if r == l {
+                    v
+                }
+                else {
+                    v * r.powi(D::$symbol::to_i32()) / l.powi(D::$symbol::to_i32())
+                }
+            };)+
+
+            v.value()
         }}
 
         #[doc(hidden)]
